@@ -20,7 +20,7 @@ func init() {
 	simrt.Register(&simrt.Scenario{
 		Prop: "C11", Name: "session-histories", Count: tiered(400, 200000),
 		Run: c11Run, MaxOps: 8 << 20, Horizon: 8 * time.Hour,
-		Doc: "one session driven as gRPC drives it (Accept re-entered at once, Dial sometimes called while a connection is open) through a tape-chosen history of connect / transfer / close-by-client / close-by-server / close-by-both / relay-outage events; first pairing at version 2 (or 1: no switch); finally a second, unpaired client with only the passphrase",
+		Doc: "one session driven as gRPC drives it (Accept re-entered at once, Dial sometimes called while a connection is open) through a tape-chosen history of connect / transfer / close-by-client / close-by-server / close-by-both / relay-outage / relay-restart (all mailboxes lost) events, with or without failing DelCipherBox calls; first pairing at version 2 (or 1: no switch); finally a second, unpaired client with only the passphrase",
 	})
 }
 
@@ -43,7 +43,13 @@ func c11Run(rc *simrt.RunCtx) {
 	st.eager = true
 	st.planBytes = func(string, int) int { return 16 + rc.Pick(30000, "wl.plan") }
 	rounds := 2 + rc.Pick(4, "wl.rounds")
-	events := []string{"client-close", "server-close", "both-close", "relay-outage", "lossy-reconnect"}
+	events := []string{"client-close", "server-close", "both-close", "relay-outage", "lossy-reconnect", "relay-restart"}
+	if rc.Pick(3, "relay.k.delerr") == 0 {
+		// DelCipherBox calls fail (the relay's answer is lost; the box may or
+		// may not be gone)
+		rl.f.delErrPm = []int{300, 1000}[rc.Pick(2, "relay.k.delerrpm")]
+		rc.Knob("relay.delerr", rl.f.delErrPm)
+	}
 	rc.Knob("case", fmt.Sprintf("maxV=%d/%d rounds=%d", maxVC, maxVS, rounds))
 	passSID, _ := st.S.data.SID() // the passphrase-derived rendezvous
 	// nobody closes on completion by itself: the history decides
@@ -186,9 +192,22 @@ func c11Run(rc *simrt.RunCtx) {
 			rl.lossy(rc.Now()+time.Duration(5+rc.Pick(20, "wl.lossy"))*time.Second, 100+100*rc.Pick(3, "wl.lossrate"))
 			time.Sleep(time.Duration(rc.Pick(2000, "wl.lossy-close-at")) * time.Millisecond)
 			ci.conn.Close()
-		case "relay-outage":
+		case "relay-outage", "relay-restart":
 			d := time.Duration(3+rc.Pick(20, "wl.outage")) * time.Second
-			rl.outage(rc.Now() + d)
+			if ev == "relay-restart" {
+				// the relay process is restarted: mailboxes and their
+				// contents are gone; sometimes right after one side closed
+				d = time.Duration(rc.Pick(8000, "wl.restart")) * time.Millisecond
+				switch rc.Pick(3, "wl.restart-with-close") {
+				case 1:
+					ci.conn.Close()
+				case 2:
+					si.conn.Close()
+				}
+				rl.restart(rc.Now() + d)
+			} else {
+				rl.outage(rc.Now() + d)
+			}
 			// the connection may or may not survive the outage; if it does,
 			// the client ends it afterwards so that the history goes on
 			time.Sleep(d + time.Duration(1+rc.Pick(30, "wl.after-outage"))*time.Second)
